@@ -4,7 +4,7 @@ set -u
 P="$(realpath "$1")"; ID="$2"; T="${3:-quick}"
 cd /repo || exit 2
 if [ -n "$(git status --porcelain)" ]; then echo "repo not clean"; exit 2; fi
-if ! git apply "$P" 2>/dev/null && ! git apply --3way "$P" 2>/dev/null; then echo "APPLY-FAILED $P"; git checkout -- . ; exit 3; fi
+if ! git apply "$P" 2>/dev/null && ! git apply --3way "$P" 2>/dev/null; then echo "APPLY-FAILED $P"; git reset -q --hard; exit 3; fi
 ( export GOFLAGS=-mod=mod GOPROXY=off GOSUMDB=off GOTOOLCHAIN=local; go build ./... ) || { echo "MUTANT DOES NOT BUILD"; git checkout -- .; git reset -q; exit 4; }
 cd /verif && VERIF_DIR_KEEP=1 ./check "$ID" "$T" > /tmp/mutcheck.$$.log 2>&1; rc=$?
 grep -a "^VIOLATION\|^SUMMARY\|^INTERNAL\|^INCONC" /tmp/mutcheck.$$.log | cut -c1-220 | head -8
